@@ -35,6 +35,8 @@ func compare(h histlib.History) (string, string, histlib.RunStats, error) {
 		with.Digest, without.Digest = "", ""
 	}
 	switch {
+	case len(with.AppBlocked) > 0 && len(without.AppBlocked) == 0:
+		return "app-statement-blocked", fmt.Sprintf("with litestream idle, application statements fail with SQLITE_BUSY (they succeed without litestream): %v", with.AppBlocked), st, nil
 	case with.FreshErr != "" && without.FreshErr == "":
 		return "fresh-connection-fails", "a connection opened after the history cannot read the source with litestream: " + with.FreshErr, st, nil
 	case with.Digest != "" && with.FreshDigest != with.Digest && without.FreshDigest == without.Digest:
